@@ -515,6 +515,42 @@ fn render_log(status: &str, lits: &[i32], split: usize, filler: &[&str], mask: u
 }
 pub fn satlog_suite(prop: &str, tier: &str, seed: u64) -> Report {
     let mut rep = Report::new();
+    if prop == "all" || prop == "C06" {
+        // every literal position of a value line replaced by every number of the pool: accepted exactly when it is a non-zero literal of
+        // the literal type (i32 here), and then returned exactly
+        let f = FORMATS.iter().find(|f| f.name == "satlog").unwrap();
+        start_watchdog(30);
+        let base = ["1", "-2", "3"];
+        for pos in 0..base.len() {
+            for (ni, num) in NUMBERS.iter().enumerate() {
+                let mut lits: Vec<String> = base.iter().map(|x| x.to_string()).collect();
+                lits[pos] = num.to_string();
+                let t = format!("s SATISFIABLE\nv {} 0\n", lits.join(" ")).into_bytes();
+                let v = big(num);
+                let ok = v != 0 && v.abs() <= i32::MAX as i128;
+                rep.inputs += 1;
+                rep.nontrivial += 1;
+                for sc in [ONE_SHOT, Sched { chunk: 1, mode: Mode::Step(1), fail_at: None, interrupt: 0 }] {
+                    let o = run(f, &t, sc);
+                    rep.runs += 1;
+                    let mut a = vec![s("log06"), pos.to_string(), ni.to_string()];
+                    a.extend(sc.args());
+                    if o.end == End::Clean {
+                        let want = format!("Some(true) [{}]", lits.iter().map(|x| big(x).to_string()).collect::<Vec<_>>().join(", "));
+                        if !ok {
+                            if num != &"0" {
+                                rep.fail("C06 a literal outside the literal type is rejected (solver log)", show(&t), a, format!("accepted as {:?}", o.items));
+                            }
+                        } else if o.items != vec![want.clone()] {
+                            rep.fail("C06 accepted numbers are the numbers written (solver log)", show(&t), a, format!("expected {}, got {:?}", want, o.items));
+                        }
+                    } else if let End::Panic(m) = &o.end {
+                        rep.fail("C06 a literal outside the literal type is rejected (solver log)", show(&t), a, format!("panic: {}", m));
+                    }
+                }
+            }
+        }
+    }
     if !(prop == "all" || prop == "C07") {
         return rep;
     }
